@@ -296,7 +296,11 @@ func genWork(seed uint64) (gwork, simrt.FaultPlan, simrt.MapPolicy, uint64) {
 	t.GeomCol = ident(r, used)
 	pk := gpkgh.Column{Name: ident(r, used), Type: "INTEGER", PK: true, NotNull: r.Chance(0.5), AutoInc: r.Chance(0.4)}
 	var attrs []gpkgh.Column
-	for i, n := 0, r.Intn(5); i < n; i++ {
+	nattr := r.Intn(5)
+	if r.Chance(0.04) {
+		nattr = 30 + r.Intn(50) // a wide table: statements with many bound parameters
+	}
+	for i, n := 0, nattr; i < n; i++ {
 		typ := []string{"INTEGER", "REAL", "TEXT", "DOUBLE", "MEDIUMINT", "TEXT(20)", "Integer", "text", "Real", "DOUBLE PRECISION", "VARCHAR(10)"}[r.Intn(11)]
 		attrs = append(attrs, gpkgh.Column{Name: ident(r, used), Type: typ, NotNull: r.Chance(0.3)})
 	}
